@@ -100,6 +100,8 @@ func (w *World) runDriver() (ok bool) {
 		w.ended = true
 	case "orders":
 		w.driverOrders()
+	case "orders-weak":
+		w.driverOrdersWeak()
 	case "macro2":
 		w.driverMacro(2)
 	case "macro3":
@@ -663,6 +665,116 @@ func (w *World) driverOrders() {
 					w.Deliver(x, m)
 				}
 			}
+		}
+	}
+}
+
+// ---------------------------------------------------------------------------------------------
+// orders-weak: like "orders", but the others contribute only TWO precommits for the decided block A (one of the
+// three is faulty and withholds it): the commit needs x's OWN precommit. Tokens: P (proposal), D (parts),
+// V (+2/3 prevotes for A from the others), C2 (two precommits for A) and t (x's propose timeout fires, if that is
+// what is pending - the adversarial prefix may delay the proposal past it); all 120 orders. Afterwards the
+// synchronous suffix: what x lacks is offered again and pending timeouts fire only when nothing is deliverable.
+// Whatever the order, x ends up holding the polka and the block before any wait-timeout fires, so it must
+// precommit A and commit.
+func (w *World) driverOrdersWeak() {
+	if len(w.Correct) != 1 {
+		panic("orders-weak driver needs exactly one correct validator")
+	}
+	x := w.Correct[0]
+	n := w.Nodes[x]
+	w.fireAll(1)
+	h := n.RS().Height
+	var others []int
+	for b := range w.IsByz {
+		others = append(others, b)
+	}
+	sort.Ints(others)
+	idx := func(b int) uint32 {
+		vi, _ := n.RS().Validators.GetByAddress(w.Addrs[b])
+		return uint32(vi)
+	}
+	proposer := w.valIndexOfAddr(n.RS().Validators.GetProposer().Address)
+	if proposer == x {
+		panic("orders-weak driver: x must not be the round-1 proposer (use SoloTurn >= 2)")
+	}
+	bi := w.byzBlock(proposer, x, "F1")
+	if bi == nil {
+		panic("orders-weak driver: no block")
+	}
+	data := w.byzProposal(proposer, bi, h, 1, 0, "orders")
+	// all permutations of 5 tokens
+	var perms [][]int
+	var rec func(cur []int, used int)
+	rec = func(cur []int, used int) {
+		if len(cur) == 5 {
+			perms = append(perms, append([]int{}, cur...))
+			return
+		}
+		for k := 0; k < 5; k++ {
+			if used&(1<<uint(k)) == 0 {
+				rec(append(cur, k), used|1<<uint(k))
+			}
+		}
+	}
+	rec(nil, 0)
+	ch := w.X.Choose(make([]int, len(perms)), "orders-weak")
+	perm := perms[ch]
+	names := []string{"P", "D", "V", "C2", "t"}
+	lab := "weak:"
+	for _, g := range perm {
+		lab += names[g]
+	}
+	w.Deviations = append(w.Deviations, lab)
+	alive := func() bool { return n.Failed == nil && n.RS().Height == h }
+	for _, g := range perm {
+		if !alive() {
+			break
+		}
+		switch g {
+		case 0:
+			w.Deliver(x, data[0])
+		case 1:
+			for _, m := range data[1:] {
+				if alive() {
+					w.Deliver(x, m)
+				}
+			}
+		case 2:
+			for _, b := range others {
+				if alive() {
+					w.Deliver(x, w.byzVote(b, idx(b), kproto.PrevoteType, h, 1, bi.ID, "orders"))
+				}
+			}
+		case 3:
+			for _, b := range others[:2] {
+				if alive() {
+					w.Deliver(x, w.byzVote(b, idx(b), kproto.PrecommitType, h, 1, bi.ID, "orders"))
+				}
+			}
+		case 4:
+			w.fireIf(x, 3, 1) // the propose timeout of round 1, if that is what is pending
+		}
+	}
+	// synchronous suffix
+	for pass := 0; pass < 6 && alive(); pass++ {
+		if n.RS().Proposal == nil && n.RS().Round == 1 {
+			w.Deliver(x, data[0])
+		}
+		if alive() && n.RS().ProposalBlock == nil {
+			for _, m := range data[1:] {
+				if alive() {
+					w.Deliver(x, m)
+				}
+			}
+		}
+		if !alive() {
+			break
+		}
+		if to := n.PendingTimeout(); to != nil && to.Height == h && to.Round == 1 {
+			w.Timeout(x)
+		} else {
+			break
 		}
 	}
 }
